@@ -117,17 +117,17 @@ let handle = function
      let na = num_of na and da = num_of da and nb = num_of nb and db = num_of db in
      let l = function Fix _ -> 1 | Big (_, d) -> List.length d in
      let k = l na + l da + l nb + l db in
-     string_of_rres (ratio_sub (nat_of_int (70 * k + 40)) (nat_of_int (2 * k + 8)) (nat_of_int (4 * k + 32)) na da nb db)
+     string_of_rres (ratio_sub (nat_of_int (100 * k + 40)) (nat_of_int (2 * k + 8)) (nat_of_int (4 * k + 32)) na da nb db)
   | ["ratio_normalize"; n; d] ->
      let x = num_of n and y = num_of d in
      let l = function Fix _ -> 1 | Big (_, d) -> List.length d in
      let k = l x + l y in
-     string_of_rres (ratio_normalize (nat_of_int (70 * k + 40)) (nat_of_int (2 * k + 8)) (nat_of_int (4 * k + 32)) x y)
+     string_of_rres (ratio_normalize (nat_of_int (100 * k + 40)) (nat_of_int (2 * k + 8)) (nat_of_int (4 * k + 32)) x y)
   | [("ratio_add" | "ratio_mul" | "ratio_div" | "ratio_compare") as fn; na; da; nb; db] ->
      let na = num_of na and da = num_of da and nb = num_of nb and db = num_of db in
      let l = function Fix _ -> 1 | Big (_, d) -> List.length d in
      let k = l na + l da + l nb + l db in
-     let fuel = nat_of_int (70 * k + 40) and qf = nat_of_int (2 * k + 8) and mf = nat_of_int (4 * k + 32) in
+     let fuel = nat_of_int (100 * k + 40) and qf = nat_of_int (2 * k + 8) and mf = nat_of_int (4 * k + 32) in
      (match fn with
       | "ratio_add" -> string_of_rres (ratio_add fuel qf mf na da nb db)
       | "ratio_mul" -> string_of_rres (ratio_mul fuel qf mf na da nb db)
